@@ -128,6 +128,9 @@ class Ext(cpp2coq.Tr):
             b, t, kd = self.E(c["a"][0], st, env)
             if kd in ("mit", "mmit"):
                 return b, t, kd + "->"
+            if kd == "liter":       # it->m_x is (*it).m_x
+                x = self.fresh("d")
+                return b + ["do %s <- l_deref %s %s;" % (x, self.fld("list", st[0]), t)], x, "eref"
             raise Unsupported("operator-> on %s" % kd)
         if k == "member":
             b, t, kd = self.E(c["a"][0], st, env)
